@@ -359,6 +359,25 @@ func checkC06(c C06Case, o *h.Obs) *h.Fail {
 		if got.Malformed != "" || !got.Val().Equal(want) || got.Acc != 0 {
 			return h.Failf("public-mul", "Mul of %d x %d words under thresholds %v: got %v want %v", len(xw), len(yw), c.Thr, got, want)
 		}
+		// a product that misses a power of ten by less than one factor: x times ceil(10^k / x), at a small precision
+		// under directed modes (whether anything lies below the leading 1 decides value and accuracy)
+		if xb.Sign() > 0 {
+			k := int64(len(c.X) + 2*h.DW + len(c.X)%7)
+			q, r := new(big.Int).QuoRem(new(big.Int).Exp(big.NewInt(10), big.NewInt(k), nil), xb, new(big.Int))
+			if r.Sign() != 0 {
+				q.Add(q, big.NewInt(1))
+			}
+			qv := model.FromInt(q, 0)
+			qd := h.SpecOf(qv, uint(len(qv.Digits)), 0).Build()
+			for _, pm := range [][2]uint{{20, uint(model.ToZero)}, {1, uint(model.ToPositiveInf)}, {39, uint(model.ToNearestEven)}} {
+				zz := mkRecv(pm[0], uint8(pm[1]))
+				zz.Mul(xd, qd)
+				got, want := h.Read(zz), model.Prod(xv, qv, uint64(pm[0]), model.Mode(pm[1]))
+				if got.Malformed != "" || !got.Val().Equal(want.V) || model.Acc(got.Acc) != want.Acc {
+					return h.Failf("public-mul-round", "x (%d words) times ceil(10^%d / x) at precision %d %v under thresholds %v: got %v (%v) want %v (%v)", len(xw), k, pm[0], model.Mode(pm[1]), c.Thr, got.Val(), model.Acc(got.Acc), want.V, want.Acc)
+				}
+			}
+		}
 		// squaring in place at the operand's own precision, three times over: the results are rounded back to
 		// the operand's length while the receiver keeps the (much larger) buffer of the earlier full product
 		zp := uint(len(c.X))
@@ -397,7 +416,7 @@ func checkC06(c C06Case, o *h.Obs) *h.Fail {
 	return nil
 }
 
-const ruleC06 = "rapid-generated (kind, operands as base-10^19 word vectors, threshold assignment): lengths 1..300 (quick) / 1..1000 (thorough) words, balanced and unbalanced, words drawn in runs from {0, 10^19-1, 5*10^18, 5*10^18-1, 10^k, 10^k-1, small, 1, near-max, uniform}; dividends built as q*v+r with r in {0, 1, v-1, random}, divisor top words at the normalisation boundaries, divisor lengths on both sides of the recursive-division threshold (100); thresholds per case: shipped, schoolbook-only, recurse-to-the-bottom, or Karatsuba 2..40 / basicSqr 1..30 / karatsubaSqr 2..60. Oracle: math/big Int.Mul and Int.QuoRem on the same numbers (q*v+r==u and 0<=r<v follow), results normalized with all words < 10^19, identical under the drawn and the shipped thresholds, operands unmodified; then the same operands through Mul / Mul(x,x) / Quo (value and exact-vs-inexact accuracy against the reference model; the four quotients of a case go into one receiver that first held a longer all-nines value, so that its buffer is reused and dirty). Non-trivial = both operands >= 2 words. The add-back branch of divBasic is counted by the hook build (measured.divBasic_addback_hits)."
+const ruleC06 = "rapid-generated (kind, operands as base-10^19 word vectors, threshold assignment): lengths 1..300 (quick) / 1..1000 (thorough) words, balanced and unbalanced, words drawn in runs from {0, 10^19-1, 5*10^18, 5*10^18-1, 10^k, 10^k-1, small, 1, near-max, uniform}; dividends built as q*v+r with r in {0, 1, v-1, random}, divisor top words at the normalisation boundaries, divisor lengths on both sides of the recursive-division threshold (100); thresholds per case: shipped, schoolbook-only, recurse-to-the-bottom, or Karatsuba 2..40 / basicSqr 1..30 / karatsubaSqr 2..60. Oracle: math/big Int.Mul and Int.QuoRem on the same numbers (q*v+r==u and 0<=r<v follow), results normalized with all words < 10^19, identical under the drawn and the shipped thresholds, operands unmodified; then the same operands through Mul / Mul(x,x) / Quo, and x times ceil(10^k / x) at precisions 1, 20 and 39 (a product one hair above a round number) (value and exact-vs-inexact accuracy against the reference model; the four quotients of a case go into one receiver that first held a longer all-nines value, so that its buffer is reused and dirty). Non-trivial = both operands >= 2 words. The add-back branch of divBasic is counted by the hook build (measured.divBasic_addback_hits)."
 
 var propC06 = &h.Prop[C06Case]{ID: "C06", Rule: ruleC06, Gen: genC06, Check: checkC06, Matchers: map[string]func(C06Case) bool{}}
 
